@@ -92,10 +92,10 @@ def run(ctx):
     ctx.coverage.update(states=tot_s, transitions=tot_t, exhaustive=True)
     ctx.log("design: %d generated, %d distinct" % (tot_t, tot_s))
     runs = []
-    runs.append(run_replay(ctx, "gen_nodedb_b.cfg", 36 if q else 2, restart=2 if q else 1))
+    runs.append(run_replay(ctx, "gen_nodedb_b.cfg", 36 if q else 2, restart=2 if q else 30))
     runs.append(run_replay(ctx, "gen_nodedb_a.cfg", 60 if q else 3))
     runs.append(run_replay(ctx, "gen_nodedb_c.cfg", 1))          # up to four competing candidates in one version
-    runs.append(run_replay(ctx, "gen_nodedb_d.cfg", 2 if q else 1, restart=12 if q else 2))          # one line of versions 0..3 over three keys, single writes
+    runs.append(run_replay(ctx, "gen_nodedb_d.cfg", 2 if q else 1, restart=12 if q else 3))          # one line of versions 0..3 over three keys, single writes
     # both root types with two competing candidates each: a version finalized with a state root and an IO root of which one was the
     # second candidate of its type (it has to be moved to the finalized place on pathbadger) and the other the first
     runs.append(run_replay(ctx, "gen_nodedb_e.cfg", 60 if q else 4))
